@@ -27,7 +27,7 @@ Fixpoint sspec (t : tid) (ops : list op) (b : list pid) (d : Z) : list (bool * l
       | BeginBlock | BeginCap => sspec t r b (d + 1)
       | EndBlock => if d - 1 =? 0 then emit true b ++ sspec t r [] (d - 1) else sspec t r b (d - 1)
       | EndCap => emit false b ++ sspec t r [] (d - 1)
-      | Update _ _ true | Refresh | Tick | Start | Stop =>
+      | Update _ _ true | Refresh | Tick | Start | Stop | StopAuto _ | RefreshLoop =>
           (* these write frames/controls only.  Live.refresh enters the buffer twice and leaves it
              twice: whatever this thread has buffered is flushed when a leave reaches depth 0 *)
           let b1 := if d + 1 =? 0 then [] else b in
